@@ -7,6 +7,7 @@ import (
 	"runtime"
 	"strconv"
 	"sync"
+	"sync/atomic"
 	"time"
 
 	"verifharness/rig"
@@ -120,4 +121,171 @@ func eStableGoroutines() int {
 		}
 	}
 	return last
+}
+
+// eGate parks harness callbacks (C14: response callbacks that "do not return", C15: a connection writer that
+// does not return) until the case opens it at a LOGICAL point of its script. The park is bounded (a harness callback
+// must never park for good): an expiry is only recorded, the case reports it as inconclusive. inside() is the number
+// of callers parked right now; the checks use it to tell "the process is quiet except for the parked callbacks" from
+// "something is still running" when they compare the goroutine count with their baseline.
+type eGate struct {
+	ch      chan struct{}
+	once    sync.Once
+	max     time.Duration
+	in      atomic.Int32
+	parked  atomic.Int32 // total number of callers that parked
+	expired atomic.Int32
+}
+
+func newEGate(max time.Duration) *eGate { return &eGate{ch: make(chan struct{}), max: max} }
+
+// wait parks the caller until open() (returns at once when the gate is open already).
+func (g *eGate) wait() {
+	select {
+	case <-g.ch:
+		return
+	default:
+	}
+	g.in.Add(1)
+	g.parked.Add(1)
+	select {
+	case <-g.ch:
+	case <-time.After(g.max):
+		g.expired.Add(1)
+	}
+	g.in.Add(-1)
+}
+
+func (g *eGate) open()           { g.once.Do(func() { close(g.ch) }) }
+func (g *eGate) inside() int     { return int(g.in.Load()) }
+func (g *eGate) everParked() int { return int(g.parked.Load()) }
+func (g *eGate) expiries() int   { return int(g.expired.Load()) }
+
+// eQuietExcept waits (bounded) until the goroutine count is at most baseline + extra() on five consecutive polls:
+// every goroutine the stack spawned has finished except the ones the harness itself keeps parked. false = watchdog
+// expired (inconclusive, never a verdict).
+func eQuietExcept(baseline int, extra func() int, max time.Duration) bool {
+	deadline := time.Now().Add(max)
+	stable := 0
+	for time.Now().Before(deadline) {
+		if runtime.NumGoroutine() <= baseline+extra() {
+			stable++
+			if stable >= 5 {
+				return true
+			}
+		} else {
+			stable = 0
+		}
+		runtime.Gosched()
+		time.Sleep(200 * time.Microsecond)
+	}
+	return false
+}
+
+// eQuietOrStuck is eQuietExcept with a second way to reach a decidable point: "stuck". If the goroutine count stays
+// above baseline+extra() for longer than a grace period, goroutine dumps are taken; the process is stuck when every
+// goroutine (other than the caller) that has a spine-go or harness-callback frame on its stack waits for a lock
+// (sync.Mutex / RWMutex / WaitGroup / Cond / semaphore) or is parked in an eGate, on three consecutive dumps. Nothing
+// in such a process can make progress before the harness opens the gate - a logical standstill, like quiescence, not
+// a timeout: goroutines that merely have not been scheduled yet show up as runnable and keep the answer open.
+// Returns "quiet", "stuck" (with a rendering of the waiting goroutines) or "" when the watchdog expired.
+func eQuietOrStuck(baseline int, extra func() int, max time.Duration) (state, detail string) {
+	start := time.Now()
+	deadline := start.Add(max)
+	stable, stuck := 0, 0
+	for time.Now().Before(deadline) {
+		if runtime.NumGoroutine() <= baseline+extra() {
+			stable++
+			if stable >= 5 {
+				return "quiet", ""
+			}
+			stuck = 0
+		} else {
+			stable = 0
+			if time.Since(start) > 60*time.Millisecond { // grace: dumps stop the world, take them only when the count does not settle
+				if ok, d := eAllLockWaiting(); ok {
+					stuck++
+					if stuck >= 3 {
+						return "stuck", d
+					}
+				} else {
+					stuck = 0
+				}
+				time.Sleep(2 * time.Millisecond)
+			}
+		}
+		runtime.Gosched()
+		time.Sleep(200 * time.Microsecond)
+	}
+	return "", ""
+}
+
+// eAllLockWaiting: see eQuietOrStuck. true only if at least one goroutine with a spine-go frame waits for a lock.
+func eAllLockWaiting() (bool, string) {
+	buf := make([]byte, 1<<20)
+	buf = buf[:runtime.Stack(buf, true)]
+	gs := bytes.Split(buf, []byte("\n\n"))
+	lockWaiters := 0
+	var lines []string
+	for i, g := range gs {
+		if i == 0 { // the caller
+			continue
+		}
+		if !bytes.Contains(g, []byte("github.com/enbility/spine-go/")) && !bytes.Contains(g, []byte("verifharness/checks.")) {
+			continue
+		}
+		hdr := g
+		if j := bytes.IndexByte(g, '\n'); j >= 0 {
+			hdr = g[:j]
+		}
+		a, b := bytes.IndexByte(hdr, '['), bytes.IndexByte(hdr, ']')
+		if a < 0 || b < a {
+			return false, ""
+		}
+		st := string(hdr[a+1 : b])
+		if j := bytes.IndexByte([]byte(st), ','); j >= 0 {
+			st = st[:j]
+		}
+		switch st {
+		case "sync.Mutex.Lock", "sync.RWMutex.Lock", "sync.RWMutex.RLock", "semacquire", "sync.WaitGroup.Wait", "sync.Cond.Wait":
+			if bytes.Contains(g, []byte("github.com/enbility/spine-go/")) {
+				lockWaiters++
+			}
+			lines = append(lines, string(hdr)+" "+eInnermostRepoFrame(g))
+		case "select":
+			if !bytes.Contains(g, []byte("(*eGate).wait")) {
+				return false, ""
+			}
+			lines = append(lines, string(hdr)+" parked in the harness gate")
+		default:
+			return false, "" // running, runnable, syscall, sleep, chan receive, IO wait ...: may still make progress
+		}
+	}
+	if lockWaiters == 0 {
+		return false, ""
+	}
+	return true, fmt.Sprintf("%d goroutines wait for a lock inside spine-go while the others are parked in the gate:\n  %s", lockWaiters, joinLines(lines))
+}
+
+func eInnermostRepoFrame(g []byte) string {
+	for _, l := range bytes.Split(g, []byte("\n")) {
+		if bytes.HasPrefix(l, []byte("github.com/enbility/spine-go/")) {
+			if j := bytes.LastIndexByte(l, '('); j > 0 {
+				l = l[:j]
+			}
+			return "in " + string(bytes.TrimPrefix(l, []byte("github.com/enbility/spine-go/")))
+		}
+	}
+	return ""
+}
+
+func joinLines(l []string) string {
+	s := ""
+	for i, x := range l {
+		if i > 0 {
+			s += "\n  "
+		}
+		s += x
+	}
+	return s
 }
